@@ -22,6 +22,8 @@ TRIGGERS = [
     "del m.QQ (parametric space with a child space)",           # 14
     "del m.PP (its child space PP.PC2 is the base of QD, QD the base of QD2)",   # 15
     "del m.US (space whose uncached and cached cells another space's value was computed from)",   # 16
+    "o_attr_child.clear() then del Sub.z (two values read the reference through an attribute path, one was cleared before)",   # 17
+    "o_attr_child.clear() then del Base.bx -> derived S.bx (read by name by several cells)",   # 18
 ]
 
 PROBES_COMMON = ["name", "fullname", "parent", "model", "doc", "allow_none"]
@@ -180,6 +182,12 @@ def delete(g: int, h: int, bx: int, x: int, y: int, sh: int, z: int, k: int, tri
         r = call(delattr, m, "PP")
     elif trig == 16:
         r = call(delattr, m, "US"); call(delattr, fresh.m, "US")
+    elif trig == 17:
+        call(S.cells["o_attr_child"].clear)
+        r = call(delattr, live.Sub, "z"); call(delattr, fresh.Sub, "z")
+    elif trig == 18:
+        call(S.cells["o_derived"].clear)
+        r = call(delattr, m.Base, "bx"); call(delattr, fresh.m.Base, "bx")
     if not check(r[0] == "ok", "deletion raised", lambda: r):
         return False
     # ---- old handles
@@ -243,7 +251,7 @@ def delete(g: int, h: int, bx: int, x: int, y: int, sh: int, z: int, k: int, tri
     if not check(sane, "model._check_sanity() after deletion"):
         return False
     # ---- dependants re-evaluate to the values of a model that only saw the deletion
-    if trig in (0, 1, 3, 4, 5, 6, 8, 10, 11, 16):
+    if trig in (0, 1, 3, 4, 5, 6, 8, 10, 11, 16, 17, 18):
         a, b = live.observe(), fresh.observe()
         for n in OBSERVERS:
             if not check(same_outcome(a[n], b[n]), "dependant " + n, lambda: (a[n], b[n])):
